@@ -35,6 +35,14 @@ def _cases(draw):
     P = dict(gen.PROFILES["broad"], settings="some", p_attr_override=0.08, p_tag_names=0.04, p_osm=0.03)
     g = gen.G(draw, P)
     form = gen.build_form(draw, P, g=g)
+    if form.get("lists") and g.p("_", 0.1):
+        # choices columns that cannot be element names (warned about and dropped): values in every list, not only the first
+        cols = g.shuffled(["my note", "2nd", "a b c", "per cent%", "x:y:z", "e1::x"])[: g.integer(1, 3)]
+        for lst in form["lists"]:
+            for r_ in lst["rows"]:
+                for cname in cols:
+                    if g.p("_", 0.6):
+                        r_[cname] = "v"
     edge = None
     if g.p("_", 0.08):
         # edge probes: inputs a user can type that XML cannot carry as they are; the outcome must be a well-formed result or a rejection
